@@ -15,6 +15,8 @@ import (
 	"go/constant"
 	"go/token"
 	"go/types"
+	"strings"
+	"unicode/utf8"
 
 	"golang.org/x/tools/go/packages"
 	"golang.org/x/tools/go/ssa"
@@ -30,6 +32,8 @@ const (
 	cvMap
 	cvPtr
 	cvTuple
+	cvStr  // a known string (only when constEval.strings is set)
+	cvIter // the iterator of a range over a known string
 )
 
 type cv struct {
@@ -39,12 +43,14 @@ type cv struct {
 	elems []*cv
 	m     map[int64]*cv
 	p     *cv // pointee
+	s     string
 }
 
 var cvU = &cv{kind: cvUnknown}
 
 func cvI(i int64) *cv { return &cv{kind: cvInt, i: i} }
 func cvB(b bool) *cv  { return &cv{kind: cvBool, b: b} }
+func cvS(s string) *cv { return &cv{kind: cvStr, s: s} }
 
 type constEval struct {
 	pk      *packages.Package
@@ -64,6 +70,10 @@ type constEval struct {
 	// onCall is asked first about every call, at any depth: it may model the call (output written,
 	// a library function with a known meaning) and say what it yields
 	onCall func(cc *ssa.CallCommon, args []*cv) (*cv, bool)
+
+	// strings: string constants are values too (indexing, slicing, concatenation, comparison, range,
+	// conversions from and to bytes and runes, and the pure functions of package strings)
+	strings bool
 }
 
 // evalEnd: where an evaluation was stopped by a hook.
@@ -187,6 +197,9 @@ func (ce *constEval) zero(t types.Type) *cv {
 		if u.Info()&types.IsBoolean != 0 {
 			return cvB(false)
 		}
+		if ce.strings && u.Info()&types.IsString != 0 {
+			return cvS("")
+		}
 	case *types.Array:
 		out := &cv{kind: cvAgg}
 		for i := int64(0); i < u.Len(); i++ {
@@ -289,6 +302,10 @@ func (ce *constEval) exec(p *Prog, fn *ssa.Function, params map[*ssa.Parameter]*
 				}
 			case constant.Bool:
 				return cvB(constant.BoolVal(x.Value))
+			case constant.String:
+				if ce.strings {
+					return cvS(constant.StringVal(x.Value))
+				}
 			}
 			return cvU
 		case *ssa.Parameter:
@@ -426,6 +443,25 @@ func (ce *constEval) exec(p *Prog, fn *ssa.Function, params map[*ssa.Parameter]*
 						out.i = trunc(out.i, x.Type())
 					}
 					env[x] = out
+				case l.kind == cvStr && r.kind == cvStr:
+					switch x.Op {
+					case token.ADD:
+						env[x] = cvS(l.s + r.s)
+					case token.EQL:
+						env[x] = cvB(l.s == r.s)
+					case token.NEQ:
+						env[x] = cvB(l.s != r.s)
+					case token.LSS:
+						env[x] = cvB(l.s < r.s)
+					case token.LEQ:
+						env[x] = cvB(l.s <= r.s)
+					case token.GTR:
+						env[x] = cvB(l.s > r.s)
+					case token.GEQ:
+						env[x] = cvB(l.s >= r.s)
+					default:
+						env[x] = cvU
+					}
 				case l.kind == cvBool && r.kind == cvBool && (x.Op == token.EQL || x.Op == token.NEQ):
 					env[x] = cvB((l.b == r.b) == (x.Op == token.EQL))
 				default:
@@ -463,9 +499,61 @@ func (ce *constEval) exec(p *Prog, fn *ssa.Function, params map[*ssa.Parameter]*
 				}
 			case *ssa.Convert:
 				o := val(x.X)
-				if o.kind == cvInt {
+				toStr := false
+				if bt, ok := x.Type().Underlying().(*types.Basic); ok && bt.Info()&types.IsString != 0 {
+					toStr = true
+				}
+				switch {
+				case ce.strings && toStr && o.kind == cvInt:
+					env[x] = cvS(string(rune(o.i)))
+				case ce.strings && toStr && o.kind == cvAgg:
+					// []byte or []rune of known elements
+					_, isRunes := x.X.Type().Underlying().(*types.Slice)
+					if sl, ok := x.X.Type().Underlying().(*types.Slice); ok {
+						if bt, ok := sl.Elem().Underlying().(*types.Basic); ok && bt.Kind() == types.Int32 {
+							isRunes = true
+						} else {
+							isRunes = false
+						}
+					}
+					var bs []byte
+					var rs []rune
+					known := true
+					for _, e := range o.elems {
+						if e.kind != cvInt {
+							known = false
+							break
+						}
+						bs = append(bs, byte(e.i))
+						rs = append(rs, rune(e.i))
+					}
+					switch {
+					case !known:
+						env[x] = cvU
+					case isRunes:
+						env[x] = cvS(string(rs))
+					default:
+						env[x] = cvS(string(bs))
+					}
+				case ce.strings && o.kind == cvStr && !toStr:
+					out := &cv{kind: cvAgg}
+					if sl, ok := x.Type().Underlying().(*types.Slice); ok {
+						if bt, ok := sl.Elem().Underlying().(*types.Basic); ok && bt.Kind() == types.Int32 {
+							for _, r := range o.s {
+								out.elems = append(out.elems, cvI(int64(r)))
+							}
+						} else {
+							for i := 0; i < len(o.s); i++ {
+								out.elems = append(out.elems, cvI(int64(o.s[i])))
+							}
+						}
+						env[x] = out
+					} else {
+						env[x] = cvU
+					}
+				case o.kind == cvInt:
 					env[x] = cvI(trunc(o.i, x.Type()))
-				} else {
+				default:
 					env[x] = o
 				}
 			case *ssa.ChangeType:
@@ -498,6 +586,13 @@ func (ce *constEval) exec(p *Prog, fn *ssa.Function, params map[*ssa.Parameter]*
 				}
 			case *ssa.Index:
 				agg, idx := val(x.X), val(x.Index)
+				if agg.kind == cvStr && idx.kind == cvInt {
+					if idx.i < 0 || idx.i >= int64(len(agg.s)) {
+						return nil, fmt.Errorf("index %d out of range of a string of length %d", idx.i, len(agg.s))
+					}
+					env[x] = cvI(int64(agg.s[idx.i]))
+					continue
+				}
 				if agg.kind == cvAgg && idx.kind == cvInt && idx.i >= 0 && idx.i < int64(len(agg.elems)) {
 					env[x] = agg.elems[idx.i]
 				} else {
@@ -512,6 +607,33 @@ func (ce *constEval) exec(p *Prog, fn *ssa.Function, params map[*ssa.Parameter]*
 				}
 			case *ssa.Slice:
 				base := val(x.X)
+				if base.kind == cvStr {
+					lo, hi := int64(0), int64(len(base.s))
+					okB := true
+					if x.Low != nil {
+						if l := val(x.Low); l.kind == cvInt {
+							lo = l.i
+						} else {
+							okB = false
+						}
+					}
+					if x.High != nil {
+						if h := val(x.High); h.kind == cvInt {
+							hi = h.i
+						} else {
+							okB = false
+						}
+					}
+					if !okB {
+						env[x] = cvU
+						continue
+					}
+					if lo < 0 || hi > int64(len(base.s)) || lo > hi {
+						return nil, fmt.Errorf("slice [%d:%d] out of range of a string of length %d", lo, hi, len(base.s))
+					}
+					env[x] = cvS(base.s[lo:hi])
+					continue
+				}
 				agg := base
 				if base.kind == cvPtr {
 					agg = base.p
@@ -523,6 +645,13 @@ func (ce *constEval) exec(p *Prog, fn *ssa.Function, params map[*ssa.Parameter]*
 				}
 			case *ssa.Lookup:
 				m, k := val(x.X), val(x.Index)
+				if m.kind == cvStr && k.kind == cvInt {
+					if k.i < 0 || k.i >= int64(len(m.s)) {
+						return nil, fmt.Errorf("index %d out of range of a string of length %d", k.i, len(m.s))
+					}
+					env[x] = cvI(int64(m.s[k.i]))
+					continue
+				}
 				var got *cv
 				found := false
 				if m.kind == cvMap && k.kind == cvInt {
@@ -584,6 +713,22 @@ func (ce *constEval) exec(p *Prog, fn *ssa.Function, params map[*ssa.Parameter]*
 						env[x] = cvI(int64(len(a.elems)))
 						continue
 					}
+					if a != nil && a.kind == cvStr {
+						env[x] = cvI(int64(len(a.s)))
+						continue
+					}
+				}
+				if ce.strings {
+					if h := x.Call.StaticCallee(); h != nil && h.Pkg != nil && h.Pkg.Pkg.Path() == "strings" {
+						var args []*cv
+						for _, a := range x.Call.Args {
+							args = append(args, val(a))
+						}
+						if out := stringsModel(h.Name(), args); out != nil {
+							env[x] = out
+							continue
+						}
+					}
 				}
 				// a pure helper of the module with known arguments: evaluated in place
 				if h := x.Call.StaticCallee(); h != nil && depth < 4 && len(h.Blocks) > 0 && h.Pkg != nil && fn.Pkg != nil && h.Pkg == fn.Pkg && len(h.Params) == len(x.Call.Args) {
@@ -630,6 +775,25 @@ func (ce *constEval) exec(p *Prog, fn *ssa.Function, params map[*ssa.Parameter]*
 				}
 				return nil, fmt.Errorf("returned without reaching the call")
 			case *ssa.DebugRef:
+			case *ssa.Range:
+				if o := val(x.X); o.kind == cvStr {
+					env[x] = &cv{kind: cvIter, s: o.s}
+				} else {
+					env[x] = cvU
+				}
+			case *ssa.Next:
+				it := val(x.Iter)
+				if it.kind != cvIter || !x.IsString {
+					env[x] = cvU
+					continue
+				}
+				if it.i >= int64(len(it.s)) {
+					env[x] = &cv{kind: cvTuple, elems: []*cv{cvB(false), cvI(0), cvI(0)}}
+					continue
+				}
+				r, size := utf8.DecodeRuneInString(it.s[it.i:])
+				env[x] = &cv{kind: cvTuple, elems: []*cv{cvB(true), cvI(it.i), cvI(int64(r))}}
+				it.i += int64(size)
 			default:
 				if v, ok := in.(ssa.Value); ok {
 					env[v] = cvU
@@ -646,4 +810,79 @@ func (ce *constEval) exec(p *Prog, fn *ssa.Function, params map[*ssa.Parameter]*
 		prev, b = b, next
 		keepPhis = false
 	}
+}
+
+// stringsModel: the pure functions of package strings on known arguments (nil: not modelled).
+func stringsModel(name string, args []*cv) *cv {
+	str := func(i int) (string, bool) {
+		if i < len(args) && args[i].kind == cvStr {
+			return args[i].s, true
+		}
+		return "", false
+	}
+	a, okA := str(0)
+	b, okB := str(1)
+	switch name {
+	case "ToLower":
+		if okA {
+			return cvS(strings.ToLower(a))
+		}
+	case "ToUpper":
+		if okA {
+			return cvS(strings.ToUpper(a))
+		}
+	case "TrimSpace":
+		if okA {
+			return cvS(strings.TrimSpace(a))
+		}
+	case "HasPrefix":
+		if okA && okB {
+			return cvB(strings.HasPrefix(a, b))
+		}
+	case "HasSuffix":
+		if okA && okB {
+			return cvB(strings.HasSuffix(a, b))
+		}
+	case "Contains":
+		if okA && okB {
+			return cvB(strings.Contains(a, b))
+		}
+	case "Index":
+		if okA && okB {
+			return cvI(int64(strings.Index(a, b)))
+		}
+	case "LastIndex":
+		if okA && okB {
+			return cvI(int64(strings.LastIndex(a, b)))
+		}
+	case "TrimPrefix":
+		if okA && okB {
+			return cvS(strings.TrimPrefix(a, b))
+		}
+	case "TrimSuffix":
+		if okA && okB {
+			return cvS(strings.TrimSuffix(a, b))
+		}
+	case "IndexByte", "LastIndexByte":
+		if okA && len(args) > 1 && args[1].kind == cvInt {
+			if name == "IndexByte" {
+				return cvI(int64(strings.IndexByte(a, byte(args[1].i))))
+			}
+			return cvI(int64(strings.LastIndexByte(a, byte(args[1].i))))
+		}
+	case "Replace":
+		if c, okC := str(2); okA && okB && okC && len(args) > 3 && args[3].kind == cvInt {
+			return cvS(strings.Replace(a, b, c, int(args[3].i)))
+		}
+	case "ReplaceAll":
+		if c, okC := str(2); okA && okB && okC {
+			return cvS(strings.ReplaceAll(a, b, c))
+		}
+	case "Cut":
+		if okA && okB {
+			x, y, f := strings.Cut(a, b)
+			return &cv{kind: cvTuple, elems: []*cv{cvS(x), cvS(y), cvB(f)}}
+		}
+	}
+	return nil
 }
